@@ -72,6 +72,13 @@ def obligations(tier, kf):
             p = {'N': 3}
             p.update(kf)
             obs.append(Ob(fn, p, 600, desc='make position %s, |s| == 3' % fn))
+    # options of one step must not reach the commands of the steps it depends on: GNU Make hands
+    # target-specific variables down to prerequisites (harness shared with C06)
+    for n in (0, 1) if tier == 'quick' else (0, 1, 2):
+        obs.append(Ob('p_prereq', {'N': n}, 600 if n < 2 else 3000, module='vpx.harness.c06',
+                      desc='compile step built as a prerequisite of a step with the option <s>, |s| == %d' % n))
+    pp = Ob('p_prereq', {'N': 1}, 600, module='vpx.harness.c06')
+    obs += [pp.twin(), pp.mutant('make_flags_vars_global')]
     return obs
 
 
@@ -187,6 +194,8 @@ def _makefile_for(fn, cex):
 
 def real_replay(ob, cex):
     """Counterexample -> real Makefile class -> real make 4.3 + /bin/sh with recorder stubs."""
+    if ob.fn not in POSITIONS:
+        return None      # shared whole-rule obligations: the harness body runs the real handlers
     try:
         built = _makefile_for(ob.fn, cex)
     except Exception as e:   # noqa
@@ -215,6 +224,8 @@ def real_replay(ob, cex):
 
 def classify(ob, cex):
     s = cex['args'][0]
+    if not isinstance(s, str) or ob.fn not in POSITIONS:
+        return None
     if ob.fn.startswith('b_command_word') and s[:1] in ('@', '-', '+'):
         return 'C01-F3'
     k = s.find('=')
